@@ -138,6 +138,7 @@ def fam_suppress(p: Dict[str, Any], problems: List[str], w: World) -> Tuple[str,
     if heard:
         # the instance must be an authoritative responder for the type to take note of the question
         register(w, host, make_info(Svc(TA, "own._a._tcp.local.", "own.local.", 80, b"", [bytes([10, 0, 0, 1])], [])))
+        register(w, host, make_info(Svc("_b._tcp.local.", "ownb._b._tcp.local.", "own.local.", 81, b"", [bytes([10, 0, 0, 1])], [])))
     w.advance(3000)
     base = [ptr(1, 4500), ptr(2, 4500)]
     w.net.inject(host, wire.response(base), ("10.0.0.50", 5353))
@@ -157,7 +158,11 @@ def fam_suppress(p: Dict[str, Any], problems: List[str], w: World) -> Tuple[str,
         known_at_t2 = list(base) + [own_ptr]
         first_ka = {"empty": [], "subset": [base[0]], "equal": known_at_t2, "superset": known_at_t2 + [ptr(9, 4500)]}[rel]
         contained = rel != "superset"
-        loop.call_at(t1 / 1000, inject, wire.query([("Q", TA, 12, 1)], answers=first_ka, id_=77), "10.0.0.60")
+        # the heard query may carry further QM questions before or after ours (all must be remembered)
+        qs = {"single": [("Q", TA, 12, 1)], "ours-first": [("Q", TA, 12, 1), ("Q", "_b._tcp.local.", 12, 1)],
+              "ours-last": [("Q", "_b._tcp.local.", 12, 1), ("Q", "ownb._b._tcp.local.", 33, 1), ("Q", TA, 12, 1)],
+              "ours-after-qu": [("Q", "_b._tcp.local.", 12, 0x8001), ("Q", TA, 12, 1)]}[p.get("heard_q", "single")]
+        loop.call_at(t1 / 1000, inject, wire.query(qs, answers=first_ka, id_=77), "10.0.0.60")
     else:
         # first asker: a browser of this very instance, forced QM, cancelled right after its first query; it lists the
         # cache as it is at t1, so 'subset'/'superset' are produced by changing the cache between t1 and t2
@@ -329,8 +334,14 @@ def points(tier: str) -> List[Dict[str, Any]]:
             for rel in ("empty", "subset", "equal", "superset"):
                 if first == "own" and (rel == "empty" or (gap == 0 and rel != "equal")):
                     continue  # an own browser lists what the cache holds; the cache cannot change within one instant
+                if first == "heard" and gap == 0:
+                    continue  # hearing and asking in the very same instant: either order is legitimate
                 for second in ("QM", "QU", None):
                     pts.append({"fam": "suppress", "first": first, "gap": gap, "rel": rel, "second": second})
+                    if first == "heard" and second == "QM":
+                        for hq in ("ours-first", "ours-last", "ours-after-qu"):
+                            pts.append({"fam": "suppress", "first": first, "gap": gap, "rel": rel, "second": second,
+                                        "heard_q": hq})
     for srv, txt, a in itertools.product(("absent", "fresh", "stale"), repeat=3):
         if a != "absent" and srv == "absent" and False:
             continue
